@@ -14,6 +14,8 @@ import tempfile
 
 VERIF = os.path.dirname(os.path.dirname(os.path.abspath(__file__)))
 PROPS = [json.loads(l)['id'] for l in open(os.path.join(VERIF, 'properties.jsonl'))]
+if os.environ.get('CHECKS'):
+    PROPS = os.environ['CHECKS'].split()
 
 
 def one(patch):
